@@ -13,5 +13,13 @@ pub proof fn names_cors()
         Header::_ACCESS_CONTROL_MAX_AGE@ == "Access-Control-Max-Age"@,
         Header::_ACCESS_CONTROL_EXPOSE_HEADERS@ == "Access-Control-Expose-Headers"@,
         METHOD.options@ == "OPTIONS"@, METHOD.get@ == "GET"@, METHOD.head@ == "HEAD"@,
+        // the documented names of the settings
+        Config::RWS_CONFIG_CORS_ALLOW_ALL@ == "RWS_CONFIG_CORS_ALLOW_ALL"@,
+        Config::RWS_CONFIG_CORS_ALLOW_ORIGINS@ == "RWS_CONFIG_CORS_ALLOW_ORIGINS"@,
+        Config::RWS_CONFIG_CORS_ALLOW_CREDENTIALS@ == "RWS_CONFIG_CORS_ALLOW_CREDENTIALS"@,
+        Config::RWS_CONFIG_CORS_ALLOW_HEADERS@ == "RWS_CONFIG_CORS_ALLOW_HEADERS"@,
+        Config::RWS_CONFIG_CORS_ALLOW_METHODS@ == "RWS_CONFIG_CORS_ALLOW_METHODS"@,
+        Config::RWS_CONFIG_CORS_EXPOSE_HEADERS@ == "RWS_CONFIG_CORS_EXPOSE_HEADERS"@,
+        Config::RWS_CONFIG_CORS_MAX_AGE@ == "RWS_CONFIG_CORS_MAX_AGE"@,
 {
 }
